@@ -223,7 +223,7 @@ func (u *URIParts) Clone() *URIParts {
 }
 
 var (
-	uUsers  = []string{"", "alice", "Bob", "a.b-c_d", "+4930123", "u%40x", "user;x=1", "0", "A", "x!~*'()"}
+	uUsers  = []string{"", "alice", "Bob", "a.b-c_d", "+4930123", "u%40x", "user;x=1", "0", "A", "x!~*'()", "bob;ttl=1?x", "u;method=m?h=1", "z?q;user=phone", "w;maddr=q"}
 	uPass   = []string{"", "secret", "P4ss", "1234x", "a&b"}
 	uHosts  = []string{"example.com", "h", "192.0.2.4", "[2001:db8::1]", "A.B.c", "gw-1.example.net", "[::1]", "x.y"}
 	uPorts  = []string{"", "5060", "5061", "1", "65535", "0", "05060"}
